@@ -286,7 +286,16 @@ def mutants(spec):
             # -- extra connection
             if m["sigs"]:
                 s = clone(); s["modules"][mi]["insts"][ii]["conns"].append(["zz9", ["sig", m["sigs"][0][0]]])
-                yield "extra_connection", "%s/%s" % (depth, kind), s
+                yield "extra_connection", "%s/%s%s" % (depth, kind, "" if iface else "/portless_target"), s
+        # -- extra connection on an instance of an external cell that has no ports at all
+        if m["sigs"]:
+            s = clone()
+            s["cells"].append({"kind": "ext", "name": "XNoPorts", "ports": []})
+            s["modules"][mi]["insts"].append({"name": "zznp", "of": ["cell", len(s["cells"]) - 1], "kind": "inst", "tag": 999,
+                                              "conns": [["zz9", ["sig", m["sigs"][0][0]]]]})
+            if s["modules"][mi].get("history"):
+                s["modules"][mi]["history"].append(["zznp", "zz9", ["sig", m["sigs"][0][0]], "call"])
+            yield "extra_connection", "%s/inst/portless_target/ext" % depth, s
         # -- circular instantiation
         s = clone(); s["cycle"] = {"kind": "self", "mod": mi}
         yield "circular_instantiation", "%s/self" % depth, s
@@ -439,7 +448,9 @@ def shard(idx, n, tier):
         if len(ms) > MAX_MUTANTS:
             res.notes["mutants_beyond_cap_skipped"] += len(ms) - MAX_MUTANTS
             step = len(ms) / MAX_MUTANTS
+            rare = [x for x in ms if "portless" in x[1]]  # rare sites are never thinned out
             ms = [ms[int(i * step)] for i in range(MAX_MUTANTS)]
+            ms += [x for x in rare if not any(x is y for y in ms)]
         for cls, site, mspec in ms:
             eval_mutant(res, bh, cls, site, mspec)
         res.notes["base_designs"] += 1
